@@ -569,6 +569,15 @@ func (t *State) verifyTxRWSets(tx *pb.Transaction) (bool, error) {
 	if err != nil {
 		return false, err
 	}
+	utxoOutput, err := xmodel.ParseContractUtxoOutputs(tx)
+	if err != nil {
+		return false, err
+	}
+	// the token inputs and outputs declared for the contract execution (and compared with the
+	// re-execution below) must be inputs and outputs of the transaction itself
+	if !isContractUtxoEffective(utxoInput, utxoOutput, tx) {
+		return false, errors.New("contract utxo not effective in tx utxo")
+	}
 	utxoReader := sandbox.NewUTXOReaderFromInput(utxoInput)
 	sandBoxConfig := &contract.SandboxConfig{
 		XMReader:   reader,
@@ -964,6 +973,44 @@ func (t *State) GenRWSetFromTx(tx *pb.Transaction) ([]*kledger.VersionedData, []
 		outputs = append(outputs, &kledger.PureData{Bucket: txOut.Bucket, Key: txOut.Key, Value: txOut.Value})
 	}
 	return inputs, outputs, nil
+}
+
+func makeInputsMap(txInputs []*protos.TxInput) map[string]bool {
+	res := map[string]bool{}
+	for _, v := range txInputs {
+		res[fmt.Sprintf("%x_%d", v.GetRefTxid(), v.GetRefOffset())] = true
+	}
+	return res
+}
+
+func isSubOutputs(contractOutputs, txOutputs []*protos.TxOutput) bool {
+	markedOutput := map[string]int{}
+	for _, v := range txOutputs {
+		key := fmt.Sprintf("%x_%s", v.GetAmount(), v.GetToAddr())
+		markedOutput[key]++
+	}
+	for _, v := range contractOutputs {
+		key := fmt.Sprintf("%x_%s", v.GetAmount(), v.GetToAddr())
+		if markedOutput[key] < 1 {
+			return false
+		}
+		markedOutput[key]--
+	}
+	return true
+}
+
+// isContractUtxoEffective check if the utxo inputs and outputs of the contract execution are in tx utxo
+func isContractUtxoEffective(contractTxInputs []*protos.TxInput, contractTxOutputs []*protos.TxOutput, tx *pb.Transaction) bool {
+	if len(contractTxInputs) > len(tx.GetTxInputs()) || len(contractTxOutputs) > len(tx.GetTxOutputs()) {
+		return false
+	}
+	txInputsMap := makeInputsMap(tx.GetTxInputs())
+	for k := range makeInputsMap(contractTxInputs) {
+		if !txInputsMap[k] {
+			return false
+		}
+	}
+	return isSubOutputs(contractTxOutputs, tx.GetTxOutputs())
 }
 
 func GetVersion(txIn *protos.TxInputExt) string {
